@@ -116,6 +116,10 @@ pub fn current_kernel_version() -> c_int {
 /// if the time is before `UNIX_EPOCH`
 #[must_use]
 pub fn now() -> u64 {
+    #[cfg(feature = "verif")]
+    if let Some(t) = crate::verif::clock_now() {
+        return t;
+    }
     u64::try_from(
         SystemTime::now()
             .duration_since(UNIX_EPOCH)
@@ -198,6 +202,15 @@ pub struct CondvarBlocker {
 impl CondvarBlocker {
     /// Block current thread for a while.
     pub fn block(&self, dur: Duration) {
+        #[cfg(feature = "verif")]
+        if crate::verif::is_virtual_driver() {
+            let mut condition = self.mutex.lock().expect("lock failed");
+            if !*condition {
+                _ = crate::verif::clock_advance(dur);
+            }
+            *condition = false;
+            return;
+        }
         _ = self.condvar.wait_timeout_while(
             self.mutex.lock().expect("lock failed"),
             dur,
